@@ -21,7 +21,9 @@ Record obs := mkO {
   o_rcvd : nat;           (* bytes the read handler consumed *)
   o_inbox : list Z        (* bytes the peer has read *)
 }.
-Record phase := mkPh { issued : list label; resolved : list label; observed : Z * list obs }.
+(* par = true: the issued labels were calls made concurrently from different goroutines (a set, not a sequence);
+   the order in which they took effect is the one of [resolved] *)
+Record phase := mkPh { par : bool; issued : list label; resolved : list label; observed : Z * list obs }.
 Record case := mkCase { c_maxc : Z; c_phases : list phase }.
 
 (* ---------------- decidable equalities ---------------- *)
@@ -79,13 +81,31 @@ Definition obs_of1 (s : sess) : obs :=
   mkO (started s) (onexit s) (negb (copen s)) (b2n (sendl s)) (b2n (recvl s)) (rcvd s) (inbox s).
 Definition external (l : label) : bool := negb (internal l).
 
+(* multiset equality of label lists *)
+Fixpoint remove_first (x : label) (l : list label) : option (list label) :=
+  match l with
+  | [] => None
+  | y :: r => if label_eqb x y then Some r else match remove_first x r with Some r' => Some (y :: r') | None => None end
+  end.
+Fixpoint perm_eqb (a b : list label) : bool :=
+  match a with
+  | [] => match b with [] => true | _ => false end
+  | x :: a' => match remove_first x b with Some b' => perm_eqb a' b' | None => false end
+  end.
+
+(* the order in which the issued labels took effect: the issue order, or for concurrent calls the claimed one *)
+Definition order (p : phase) : list label := if par p then filter external (resolved p) else issued p.
+Definition order_ok (p : phase) : bool :=
+  if par p then perm_eqb (filter external (resolved p)) (issued p)
+  else list_eqb label_eqb (filter external (resolved p)) (issued p).
+
 Fixpoint replay (t : st) (ps : list phase) : bool :=
   match ps with
   | [] => true
   | p :: r =>
       match run t (resolved p) with
       | Some t' =>
-          list_eqb label_eqb (filter external (resolved p)) (issued p)
+          order_ok p
           && stable t'
           && Z.eqb (cnt t') (fst (observed p))
           && list_eqb obs_eqb (map obs_of1 (ss t')) (snd (observed p))
@@ -169,14 +189,15 @@ Fixpoint holds_from (m : Z) (H : list hist) (prev : Z) (nod : bool) (ps : list p
   match ps with
   | [] => true
   | p :: r =>
-      let H' := fold_left hist_label (issued p) H in
-      let nod' := nod && forallb not_start (issued p) in
+      let H' := fold_left hist_label (order p) H in
+      let nod' := nod && forallb not_start (order p) in
       let c := fst (observed p) in
       let os := snd (observed p) in
-      forallb2 sess_ok H' os
+      (negb (par p) || perm_eqb (order p) (issued p))     (* concurrent calls: every one of them took effect, once, in some order *)
+      && forallb2 sess_ok H' os
       && Z.eqb c (count_live os)                          (* the count is the number of sessions not yet over: every exit gave its unit back *)
       && (negb nod' || (c <=? Z.max 0 m))                 (* never above the maximum when every session came through the accept loop *)
-      && surplus_ok m prev (issued p) os
+      && surplus_ok m prev (order p) os
       && holds_from m H' c nod' r
   end.
 
@@ -193,7 +214,7 @@ Proof.
   - inversion H; subst; reflexivity.
   - destruct po; [|discriminate]. inversion H; subst; reflexivity.
   - destruct (po && negb pr); [|discriminate]. inversion H; subst; reflexivity.
-  - destruct (rl && negb rc && co && po); [|discriminate]. inversion H; subst; reflexivity.
+  - destruct po; [|discriminate]. destruct (rl && negb rc && co); inversion H; subst; reflexivity.
   - destruct (match k with RHandlerErr | RPanic => po | _ => true end); [|discriminate]. inversion H; subst; reflexivity.
   - inversion H; subst; reflexivity.
   - destruct sl; cbn in H; [|discriminate]. destruct q0 as [|x r].
@@ -379,26 +400,32 @@ Proof.
   induction ps as [|p ps IH]; intros t H prev nod G Hm HH0 Hp S Hb R; [reflexivity|].
   cbn [replay] in R. destruct (run t (resolved p)) as [t'|] eqn:Er; [|discriminate].
   apply andb_prop in R as [R R5]. apply andb_prop in R as [R R4]. apply andb_prop in R as [R R3]. apply andb_prop in R as [R1 R2].
-  apply (list_eqb_eq label_eqb label_eqb_eq) in R1. apply Z.eqb_eq in R3. apply (list_eqb_eq obs_eqb obs_eqb_eq) in R4.
+  apply Z.eqb_eq in R3. apply (list_eqb_eq obs_eqb obs_eqb_eq) in R4.
+  assert (OP : filter external (resolved p) = order p /\ (negb (par p) || perm_eqb (order p) (issued p)) = true).
+  { unfold order_ok in R1. unfold order. destruct (par p); cbn [negb orb].
+    - split; [reflexivity|exact R1].
+    - split; [|reflexivity]. apply (list_eqb_eq label_eqb label_eqb_eq). exact R1. }
+  destruct OP as [O Pm]. clear R1.
   destruct (run_ginv 0 _ _ _ G Er) as [G' Hm'].
   destruct (stable_pend t' R2) as [P' Q'].
   cbn [holds_from]. destruct (observed p) as [c os]. cbn [fst snd] in *. subst c os.
-  assert (HH' : fold_left hist_label (issued p) H = map hist_of (ss t')).
-  { rewrite <- R1, <- HH0. rewrite <- (hist_run _ _ _ Er). unfold HH. rewrite P'. cbn. apply app_nil_r. }
+  rewrite Pm. cbn [andb].
+  assert (HH' : fold_left hist_label (order p) H = map hist_of (ss t')).
+  { rewrite <- O, <- HH0. rewrite <- (hist_run _ _ _ Er). unfold HH. rewrite P'. cbn. apply app_nil_r. }
   rewrite HH'.
-  assert (Nd : forallb not_start (issued p) = forallb not_start (resolved p)) by (rewrite <- R1; apply not_start_filter).
-  assert (Hb' : nod && forallb not_start (issued p) = true -> cnt t' <= Z.max 0 m).
+  assert (Nd : forallb not_start (order p) = forallb not_start (resolved p)) by (rewrite <- O; apply not_start_filter).
+  assert (Hb' : nod && forallb not_start (order p) = true -> cnt t' <= Z.max 0 m).
   { intros X. apply andb_prop in X as [X1 X2]. rewrite Nd in X2. rewrite <- Hm, <- Hm'.
     apply (run_bound 0 (resolved p) t t' G (Z.le_refl 0) Er X2). rewrite Hm. auto. }
   rewrite (all_ok_sound _ (g_all _ _ G') Q').
   rewrite (count_live_sound _ (g_all _ _ G')). pose proof (g_cnt _ _ G') as Gc. rewrite Z.add_0_l in Gc. rewrite <- Gc, Z.eqb_refl.
   cbn [andb].
-  assert (B : negb (nod && forallb not_start (issued p)) || (cnt t' <=? Z.max 0 m) = true).
-  { destruct (nod && forallb not_start (issued p)) eqn:X; [|reflexivity]. cbn. apply Z.leb_le. auto. }
+  assert (B : negb (nod && forallb not_start (order p)) || (cnt t' <=? Z.max 0 m) = true).
+  { destruct (nod && forallb not_start (order p)) eqn:X; [|reflexivity]. cbn. apply Z.leb_le. auto. }
   rewrite B. cbn [andb].
-  assert (Su : surplus_ok m prev (issued p) (map obs_of1 (ss t')) = true).
-  { unfold surplus_ok. destruct (issued p) as [|[| i | |] [|]] eqn:Ei; try reflexivity.
-    rewrite (surplus_sound t (resolved p) t' i S Er R2 R1). subst prev m.
+  assert (Su : surplus_ok m prev (order p) (map obs_of1 (ss t')) = true).
+  { unfold surplus_ok. destruct (order p) as [|[| i | |] [|]] eqn:Ei; try reflexivity.
+    rewrite (surplus_sound t (resolved p) t' i S Er R2 O). subst prev m.
     destruct (maxc t <=? cnt t) eqn:E; cbn.
     - apply Z.leb_le in E. assert (X : cnt t <? maxc t = false) by (apply Z.ltb_ge; lia). now rewrite X.
     - apply Z.leb_gt in E. assert (X : cnt t <? maxc t = true) by (apply Z.ltb_lt; lia). now rewrite X. }
